@@ -24,6 +24,7 @@ ATTR = [
  ("fix: a stream wait could report 'never'", ["C04", "C05"]),
  ("fix: NCReadStream::eof() could report EOF", ["C04", "C05"]),
  ("fix: FftFilterFloat was retired at end of input", ["C05"]),
+ ("fix: Blackman and Blackman-Harris windows", ["C11"]),
 ]
 log = subprocess.run(["git", "-C", "/repo", "log", "--reverse", "--format=%h\t%s", "--grep", "^fix:"],
                      capture_output=True, text=True).stdout.strip().splitlines()
